@@ -169,7 +169,9 @@ def run(spec, cfg=None, mode="check", workers=None, env=None, timeout=1200, cove
         workers = min(16, os.cpu_count() or 4)
     meta = os.path.join(WORK, "tlc", (tag or spec) + "-" + uuid.uuid4().hex[:8])
     os.makedirs(meta, exist_ok=True)
-    java = ["java", "-XX:+UseParallelGC", "-Xmx" + heap, "-Xss64m"]
+    # (TLC unpacks its standard modules into a fresh directory under java.io.tmpdir on every run and leaves it behind:
+    # pointed at the run's own metadir, which is removed below, instead of /tmp)
+    java = ["java", "-XX:+UseParallelGC", "-Xmx" + heap, "-Xss64m", "-Djava.io.tmpdir=" + meta]
     if dfs:
         java.append("-Dtlc2.tool.queue.IStateQueue=StateDeque")
     cmd = java + ["-cp", JAR, "tlc2.TLC", "-config", cfg + ".cfg", "-workers", str(workers),
